@@ -301,7 +301,9 @@ def run_select(case):
     index = pd.Index(idx)
     if case.get("rangeidx") and n_rows > 0:       # a genuine RangeIndex (start, step), e.g. a slice of a longer frame
         st, sp = case["rangeidx"]
-        index = pd.RangeIndex(st, st + sp * n_rows, sp)
+        rix = pd.RangeIndex(st, st + sp * n_rows, sp)
+        if list(rix) == [int(x) for x in idx]:      # (a caller that deleted rows keeps `idx` only: then it is no range any more)
+            index = rix
     temporal = np.dtype(vdt).kind in "mM"
     cols = {f"c{j}": (np.arange(n_rows, dtype=np.int64) + (1000003 * j if vdt != "float32" else 0)).astype(vdt) for j in range(ncols)}
     values = pd.Series(cols["c0"], index=index, name="c0") if ncols == 1 else pd.DataFrame(cols, index=index)
